@@ -611,10 +611,44 @@ func (w *World) Method(name string, recv interp.PtrV, args []interp.Value) (inte
 		}
 		return interp.FloatV{E: e}, true
 	case "Var", "Std":
-		return interp.FloatV{E: sym.SymE(w.fresh("scalar" + name))}, true
+		// unbiased sample variance over all N elements (0 for N = 1) and its square root
+		N := prod(d)
+		var fold func(k int, body func(idx []sym.Poly) sym.Expr, idx []sym.Poly) sym.Expr
+		fold = func(k int, body func(idx []sym.Poly) sym.Expr, idx []sym.Poly) sym.Expr {
+			if k == r {
+				return body(idx)
+			}
+			v := sym.FreshVar()
+			return sym.Sigma(v, d[k], fold(k+1, body, append(append([]sym.Poly{}, idx...), sym.PAtom(v))))
+		}
+		sum := fold(0, func(idx []sym.Poly) sym.Expr { return w.elemAt(recv, idx) }, nil)
+		mean := sym.Div(sum, sym.PolyE(N))
+		var variance sym.Expr
+		if c, ok := N.Const(); ok && c == 1 {
+			variance = sym.Expr{}
+		} else {
+			ss := fold(0, func(idx []sym.Poly) sym.Expr { return sym.PowInt(sym.Sub(w.elemAt(recv, idx), mean), 2) }, nil)
+			variance = sym.Div(ss, sym.PolyE(N.AddInt(-1)))
+		}
+		if name == "Std" {
+			return interp.FloatV{E: sym.FnE("sqrt", variance)}, true
+		}
+		return interp.FloatV{E: variance}, true
 
 	case "At":
-		return interp.TupleV{V: []interp.Value{interp.FloatV{E: sym.SymE(w.fresh("at"))}, interp.NilV{}}}, true
+		var idx []sym.Poly
+		if len(args) == 1 {
+			idx = w.intsOf(args[0])
+		}
+		if len(idx) != r {
+			return interp.TupleV{V: []interp.Value{interp.FloatV{}, interp.ErrV{Msg: "At: index length differs from rank"}}}, true
+		}
+		for k := range idx {
+			if !w.M.Branch(sym.And(ge(idx[k], sym.PInt(0)), lt(idx[k], d[k]))) {
+				return interp.TupleV{V: []interp.Value{interp.FloatV{}, interp.ErrV{Msg: "At: index out of range"}}}, true
+			}
+		}
+		return interp.TupleV{V: []interp.Value{interp.FloatV{E: w.elemAt(recv, idx)}, interp.NilV{}}}, true
 	}
 	return nil, false
 }
